@@ -562,7 +562,13 @@ class FunctionAnalysis:
                 for k, t in kw.items():
                     self._set(k, t)
                 return set(self.nested_ret.get(f.id, set()))
-            if f.id in self.env or f.id in self.ck.callable_params.get(self.qualname, ()):  # a local callable / callback (A3)
+            if f.id in self.ck.callable_params.get(self.qualname, ()):  # a declared callback / foreign class (A3, A4)
+                return set()
+            if f.id in self.env:
+                # a local variable holding a callable: a sink only as long as it is not handed definition-carrying values
+                if allargs - {FILE}:
+                    self._viol("known-callees", "line %d: local callable %s(...) receives provenance %s" % (
+                        call.lineno, f.id, sorted(allargs)))
                 return set()
             if f.id[:1].isupper() or f.id.endswith("Error"):
                 return allargs  # a class of another module (exceptions, records): carries what it is given
